@@ -212,6 +212,7 @@ theorem quiet_ser : ∀ (j : Json) (lvl : Nat) (x : List Nat), quiet false false
   | .bool true, _, x => by simp only [ser]; exact quiet_plain' _ x (by unfold plain; decide)
   | .bool false, _, x => by simp only [ser]; exact quiet_plain' _ x (by unfold plain; decide)
   | .number n k, _, x => by simp only [ser]; exact quiet_plain' _ x (plain_serNumber n k)
+  | .numberX _, _, x => by simp only [ser]; exact quiet_plain' _ x (by unfold plain; decide)
   | .string s, _, x => by simp only [ser]; exact quiet_serString s x
   | .array [], _, x => by simp only [ser]; exact quiet_plain' _ x (by unfold plain; decide)
   | .array (v :: vs), lvl, x => by
